@@ -34,6 +34,9 @@ def corpus():
                      ("{ ...G ...F } fragment G on T { ...F @skip(if: true) } fragment F on T { a { b } }", {})]:
         for limit in (-2, 0, 1, 2):
             out.append({"text": text, "vars": vs, "limit": limit, "filter": None})
+    out.append({"text": "query Q($full: Boolean = false, $brief: Boolean = true) { a { b @include(if: $full) { c { d { a } } } x @skip(if: $brief) { y } } }",
+                "calls": [{"full": True, "brief": True}, {"full": False, "brief": False}, {"full": True, "brief": False}],
+                "vars": {"full": True, "brief": True}, "limit": 3, "filter": None})
     out.append({"text": "query Q($deep: Boolean!) { hero { name ... on T @include(if: $deep) { friends { friends { friends { name } } } } } }",
                 "calls": [{"deep": False}, {"deep": True}, {"deep": False}], "vars": {"deep": False}, "limit": 2, "filter": None})
     for text in ["{ a }", "{ a b c }", "query Q { ...F } fragment F on T { a { b { c } } }",
